@@ -202,16 +202,19 @@ class Unblock1014(object):
                 return getattr(self.file_obj, name)
         return None
 
-    def read(self, bytes_to_read: int = 0):
+    def read(self, bytes_to_read: int = None):
         """
-        Read requested bytes from the file object. Returned data will be unblocked
+        Read requested bytes from the file object. Returned data will be unblocked.
+        If bytes_to_read is not provided (or negative), all remaining data is returned.
         """
-        read_all = True if not bytes_to_read else False
+        read_all = bytes_to_read is None or bytes_to_read < 0
         while read_all or len(self.buffer) <= bytes_to_read:
             block = self.file_obj.read(1014)
             if not block:  # eof
                 break
             self.buffer += block[:1012]
+        if read_all:
+            bytes_to_read = len(self.buffer)
         output = self.buffer[:bytes_to_read]
         self.buffer = self.buffer[bytes_to_read:]
         return output
